@@ -4,7 +4,7 @@ HOOK_COMMITS = ["170ceabda4c0e4edd653ee0af5b8059dda7c750b", "1edb0ce1dcb27fd26ab
 NOTES = ("All checks share ./check (python driver). Each run rebuilds the Go harness against /repo's working tree, "
          "re-dumps tables into coq/gen, rebuilds the Coq proofs that depend on them (full .vo), evaluates the model and the "
          "executable property on implementation-observed cases inside Coq, and writes evidence/<id>.json. "
-         "known_findings.json is read-only at run time.")
+         "known/Cxx.json (known findings: status known | fixed) are read-only at run time.")
 
 # properties not (yet) claimed by a check; kept current as checks are added
 NOT_APPLICABLE = {
